@@ -477,8 +477,9 @@ def run_with_program(env, prog, tid=1, impl=None):
 def gen_with_programs(tier):
     """`with`-structured programs: [pre] scope(kw, body) [post]; body = <=2 items from atoms + scope(kw', <=1 atom)"""
     atoms = [["read", "DEFAULT_SCHEMA"], ["read", "TSQL_NO_SEMICOLON"], ["raise"], ["assign", "DEFAULT_SCHEMA"]]
+    # the empty key set is a legal scope too (seeded mutant C15/3: a nested-scope guard by truthiness of the override dict)
     kws = [{"DEFAULT_SCHEMA": "s1"}, {"DEFAULT_SCHEMA": "", "TSQL_NO_SEMICOLON": "on"}, {"BOGUS": 1},
-           {"DEFAULT_SCHEMA": "s2", "BOGUS": 1}, {"TSQL_NO_SEMICOLON": 0}]
+           {"DEFAULT_SCHEMA": "s2", "BOGUS": 1}, {"TSQL_NO_SEMICOLON": 0}, {}]
     inner_kws = kws if tier == "thorough" else [kws[1], kws[2], kws[3]]
     body2 = [[]] + [[a] for a in atoms]
     inner = list(atoms) + [["scope", kw, b] for kw in inner_kws for b in body2]
